@@ -1,58 +1,65 @@
 (* C06 - property theorems only. Statements are about the Mech model of the interpreter's two cleanup
    stacks (Model.v: mexec/mrun, transcribed from cleanup.cpp, statement_list_executor.cpp,
-   control_flow_executor.cpp, return.cpp, call_impl.cpp, interpreter.cpp) and the structural Spec
-   (Model.v: sexec/srun). Proofs: Refine.v, Once.v, SpecLaws.v, Witness.v.
-   `fuel` only bounds the recursion depth of the evaluators: every theorem holds for every fuel, i.e. for
-   every terminating run. *)
+   control_flow_executor.cpp, return.cpp, call_impl.cpp, interpreter.cpp as of the fix commits 52ea7be,
+   605aa41, c388113) and the structural Spec (Model.v: sexec/srun). Proofs: Refine.v, Once.v, SpecLaws.v.
+   Every theorem holds for ALL programs of the skeleton language, all states of the stated shape and
+   every `fuel` (fuel only bounds the recursion depth of the evaluators: every terminating run).
+   The machine of the code before the fixes and the witnesses that refuted these laws on it are kept in
+   Pinned.v (historical, not part of the obligations). *)
 From Coq Require Import List Arith Bool.
 Import ListNotations.
-From Cb Require Import C06.Model C06.Prims C06.Refine C06.Once C06.SpecLaws C06.Witness C06.Fixed.
+From Cb Require Import C06.Model C06.Prims C06.Refine C06.Once C06.SpecLaws C06.Pinned C06.Witness.
 
-(* ---- refinement, for the fragment on which it holds (safe_prog = the avoidance predicate of the three
-   known findings). Missing for the full statement: programs with a scope that registers both objects
-   and defers (#43), a `return` after an object/defer of its own statement list (#11), a `return`
-   inside a loop (#44) - see the _refuted theorems below.
-   For every safe program and every fuel: the machine's transcript IS the structural cleanup order and
-   both stacks end at their initial depth (defer 0, destructor 1 = the global level, scopes 1). *)
-Theorem cleanup_mech_refines_spec_partial : forall p, safe_prog p = true -> forall fuel,
+(* the machine's transcript IS the structural cleanup order of the property, and both stacks end at
+   their initial depth (defer 0, destructor 1 = the global level, scopes 1).  An escaping break/continue
+   (run-time error, flag false) aborts both without cleanup. *)
+Theorem cleanup_mech_refines_spec : forall p fuel,
   match srun fuel p with
   | None => mrun fuel p = None
   | Some (true, t) => mrun fuel p = Some (true, mk [] [[]] 1 t)
   | Some (false, t) => exists st, mrun fuel p = Some (false, st) /\ tr st = t
   end.
 Proof. exact run_ref. Qed.
-Print Assumptions cleanup_mech_refines_spec_partial.
+Print Assumptions cleanup_mech_refines_spec.
 
-(* the invariant that carries the induction: a statement of a safe program, started with the two stacks
-   at (D :: Ds, T :: Ts), ends - by whatever outcome (normal, return, break, continue) - with everything
-   below its own level untouched and the variable-scope depth restored *)
-Theorem stacks_balanced_partial : forall p, safe_prog p = true ->
-  forall fuel it s inl D T Ds Ts sc t0 o st',
-  safe_s inl s = true -> pre_s s D T ->
+(* the invariant that carries the induction: a statement started with the two stacks at
+   (D :: Ds, T :: Ts) ends - by whatever outcome (normal, return, break, continue) - with everything
+   below its own level untouched, both depths and the variable-scope depth restored *)
+Theorem stacks_balanced : forall p fuel it s D T Ds Ts sc t0 o st',
   mexec fuel p it s (mk (D :: Ds) (T :: Ts) sc t0) = Some (o, st') ->
   tl (dfs st') = Ds /\ tl (dts st') = Ts /\ scd st' = sc /\
   length (dfs st') = S (length Ds) /\ length (dts st') = S (length Ts).
 Proof. exact stmt_balanced. Qed.
-Print Assumptions stacks_balanced_partial.
+Print Assumptions stacks_balanced.
 
-(* leaving a callee never touches the caller's lists (safe programs): after a call both stacks are
-   exactly what they were, including the caller's own pending defers D and objects T *)
-Theorem callee_leaves_caller_alone_partial : forall p, safe_prog p = true ->
-  forall fuel it g D T Ds Ts sc t0 o st',
-  mexec fuel p it (SCall g) (mk (D :: Ds) (T :: Ts) sc t0) = Some (o, st') ->
-  dfs st' = D :: Ds /\ dts st' = T :: Ts /\ scd st' = sc.
+(* leaving a callee never runs cleanup that belongs to its caller: after a call both stacks are exactly
+   what they were - the caller's own pending defers D and objects T included - and what the call printed
+   is the callee's body closed as a scope, a function of the callee alone *)
+Theorem callee_leaves_caller_alone : forall p fuel it g D T Ds Ts sc t0 o st',
+  mexec (S fuel) p it (SCall g) (mk (D :: Ds) (T :: Ts) sc t0) = Some (o, st') ->
+  exists o1 t, scope_close (sexec_b fuel p None (body p g) [] []) = Some (o1, t) /\
+               o = call_outcome o1 /\ st' = mk (D :: Ds) (T :: Ts) sc (t0 ++ t).
 Proof. exact call_balanced. Qed.
-Print Assumptions callee_leaves_caller_alone_partial.
+Print Assumptions callee_leaves_caller_alone.
 
-(* complete run of a safe program on the machine: ctor/dtor and reg/defer events are well bracketed
-   (each object destroyed exactly once, each reached defer run exactly once, LIFO, inner scopes first),
-   no call-imbalance line, final depths 0/1/1 *)
-Theorem each_object_once_partial : forall p fuel st, safe_prog p = true -> mrun fuel p = Some (true, st) ->
+(* complete run: ctor/dtor and reg/defer events are well bracketed (each object destroyed exactly once,
+   each reached defer run exactly once, LIFO, enclosed scopes before enclosing ones), no call-imbalance
+   line, final depths 0/1/1 *)
+Theorem each_object_once : forall p fuel st, mrun fuel p = Some (true, st) ->
   chk2 [] [] (tr st) = Some ([], []) /\ Forall not_imb (tr st) /\ dfs st = [] /\ dts st = [[]] /\ scd st = 1.
-Proof. exact mrun_safe_brackets. Qed.
-Print Assumptions each_object_once_partial.
+Proof. exact mrun_brackets. Qed.
+Print Assumptions each_object_once.
 
-(* ---- for EVERY program, safe or not, every fuel, every prefix of the machine's transcript: *)
+(* leaving a block by ANY outcome appends, after what the block itself printed, the block's reached
+   defers in reverse registration order and THEN its objects' destructors in reverse construction order *)
+Theorem defer_before_dtor : forall p fuel it b Xs Ys sc t0 o st',
+  mexec (S fuel) p it (SBlock b) (mk Xs Ys sc t0) = Some (o, st') ->
+  exists t D' T', sexec_b fuel p it b [] [] = Some (o, t, D', T') /\
+                  st' = mk Xs Ys sc (t0 ++ t ++ map EDefer (rev D') ++ map EDtor (rev T')).
+Proof. exact block_exit_order. Qed.
+Print Assumptions defer_before_dtor.
+
+(* every prefix of the machine's transcript, also of aborted runs (independent of the Spec): *)
 Theorem each_object_at_most_once : forall fuel p ok st, mrun fuel p = Some (ok, st) ->
   forall t1 t2 k, tr st = t1 ++ t2 -> count (EDtor k) t1 <= count (ECtor k) t1.
 Proof. exact object_at_most_once. Qed.
@@ -63,13 +70,12 @@ Theorem each_defer_at_most_once : forall fuel p ok st, mrun fuel p = Some (ok, s
 Proof. exact defer_at_most_once. Qed.
 Print Assumptions each_defer_at_most_once.
 
-(* ---- the Spec says what the property text says, for every program: *)
+(* ---- the Spec says what the property text says: *)
 Theorem spec_cleanup_lifo_exactly_once : forall p fuel t, srun fuel p = Some (true, t) ->
   chk2 [] [] t = Some ([], []).
 Proof. exact srun_brackets. Qed.
 Print Assumptions spec_cleanup_lifo_exactly_once.
 
-(* a scope's exit (any outcome) appends its reached defers LIFO, then its objects' destructors LIFO *)
 Theorem spec_defers_before_dtors : forall fuel p it b o t,
   scope_close (sexec_b fuel p it b [] []) = Some (o, t) ->
   exists t0 D T, sexec_b fuel p it b [] [] = Some (o, t0, D, T) /\
@@ -77,63 +83,23 @@ Theorem spec_defers_before_dtors : forall fuel p it b o t,
 Proof. exact scope_exit_order. Qed.
 Print Assumptions spec_defers_before_dtors.
 
-(* ---- the pinned code does NOT satisfy the property: faithful-model witnesses (known findings) *)
+(* non-vacuity: a program with every construct and all three formerly defective shapes (a scope with
+   objects and defers, return after an object, return from inside a loop) runs to completion *)
+Example all_constructs_example : exists st, mrun 40 wall = Some (true, st) /\
+  tr st = [ECtor 1; EReg 2;
+           EReg 3; ECtor 4; EMark 5; ECtor 7; EReg 8; ECtor 9; EDefer 8; EDtor 9; EDtor 7; EDefer 3; EDtor 4;
+           EReg 3; ECtor 4; EDefer 3; EDtor 4;
+           EReg 11; ECtor 12; EReg 13; EDefer 13; EDtor 12; EDefer 11;
+           EMark 6; EDefer 2; EDtor 1].
+Proof. eexists; split; [exact wall_run|reflexivity]. Qed.
 
-(* #11 a callee that returns from a scope owning an object pops the CALLER's destructor level:
-   the caller's object 100 is destroyed right after the call, before mark 2 *)
-Theorem callee_leaves_caller_alone_refuted : exists p fuel st t,
-  mrun fuel p = Some (true, st) /\ srun fuel p = Some (true, t) /\
-  tr st = [ECtor 100; EMark 1; ECtor 1; EDtor 1; EDtor 100; EImb 1 1 1 2 1 2 2; EMark 2] /\
-  t = [ECtor 100; EMark 1; ECtor 1; EDtor 1; EMark 2; EDtor 100].
-Proof. exists w11, 20. destruct w11_run as [A B]. do 2 eexists. repeat split; eauto. Qed.
-Print Assumptions callee_leaves_caller_alone_refuted.
-
-(* #43 on fall-through the scope's destructors run BEFORE its defers *)
-Theorem defer_before_dtor_refuted : exists p fuel st t,
-  mrun fuel p = Some (true, st) /\ srun fuel p = Some (true, t) /\
-  tr st = [ECtor 1; EReg 1; EReg 2; ECtor 3; EDtor 3; EDtor 1; EDefer 2; EDefer 1] /\
-  t = [ECtor 1; EReg 1; EReg 2; ECtor 3; EDefer 2; EDefer 1; EDtor 3; EDtor 1].
-Proof. exists w43, 20. destruct w43_run as [A B]. do 2 eexists. repeat split; eauto. Qed.
-Print Assumptions defer_before_dtor_refuted.
-
-(* #44 a return through a loop leaves a stale defer level: the caller's block defer 2 runs after mark 4
-   (late) and main's defer 1 never runs - it is still on the stack at the end *)
-Theorem return_through_loop_refuted : exists p fuel st t,
-  mrun fuel p = Some (true, st) /\ srun fuel p = Some (true, t) /\
-  tr st = [EReg 1; EReg 2; EImb 1 2 3 3 3 2 2; EMark 3; EMark 4; EDefer 2] /\ dfs st = [[1]] /\
-  t = [EReg 1; EReg 2; EMark 3; EDefer 2; EMark 4; EDefer 1].
-Proof. exists w44, 30. destruct w44_run as [A B]. do 2 eexists. repeat split; eauto. Qed.
-Print Assumptions return_through_loop_refuted.
-
-(* #11 twice empties the destructor stack: object 2 is constructed and never destroyed *)
-Theorem each_object_once_refuted : exists p fuel st,
-  mrun fuel p = Some (true, st) /\ count (ECtor 2) (tr st) = 1 /\ count (EDtor 2) (tr st) = 0.
-Proof. exists wnever, 20. destruct wnever_run as [A B]. eexists. split; [exact A|]. split; vm_compute; reflexivity. Qed.
-Print Assumptions each_object_once_refuted.
-
-(* `return` in main after an object: transcript as demanded, but the destructor stack ends one level
-   short (the global level was popped) *)
-Theorem stacks_balanced_refuted : exists p fuel st t,
-  mrun fuel p = Some (true, st) /\ srun fuel p = Some (true, t) /\ tr st = t /\ dts st = [].
-Proof. exists wmain, 20. destruct wmain_run as [A B]. do 2 eexists. repeat split; eauto. Qed.
-Print Assumptions stacks_balanced_refuted.
-
-(* ---- the three repairs proposed in notes/C06.md are sufficient: the machine with (#43) defers popped
-   before destructors in pop_scope/pop_destructor_scope, (#11) execute_pre_return_cleanup clearing the
-   innermost lists instead of popping the levels, (#44) loops closing their defer level on a return -
-   Fixed.v: fexec/frun - refines the Spec for ALL programs and every fuel.  (frun is a model of the
-   REPAIRED code, not of the pinned code; the repaired C++ was compared with it in a scratch build.) *)
-Theorem repaired_machine_refines_spec : forall p fuel,
-  match srun fuel p with
-  | None => frun fuel p = None
-  | Some (true, t) => frun fuel p = Some (true, mk [] [[]] 1 t)
-  | Some (false, t) => exists st, frun fuel p = Some (false, st) /\ tr st = t
-  end.
-Proof. exact fixed_run_ref. Qed.
-Print Assumptions repaired_machine_refines_spec.
-
-(* non-vacuity: a safe program using every construct runs to completion on the machine *)
-Example safe_example : safe_prog wsafe = true /\ exists st, mrun 40 wsafe = Some (true, st) /\
-  tr st = [ECtor 1; EReg 2; EMark 3; ECtor 5; EReg 6; EMark 7; EDefer 6; EDtor 5; EDefer 2;
-           EReg 2; EDefer 2; EReg 8; EDefer 8; EMark 4; EDtor 1].
-Proof. destruct wsafe_run as [A B]. split; [exact A|]. eexists; split; [exact B|reflexivity]. Qed.
+(* the former witnesses of findings #11, #43, #44 now give the demanded transcripts *)
+Example former_witnesses_conform :
+  (exists st, mrun 20 w11 = Some (true, st) /\ srun 20 w11 = Some (true, tr st)) /\
+  (exists st, mrun 20 w43 = Some (true, st) /\ srun 20 w43 = Some (true, tr st)) /\
+  (exists st, mrun 30 w44 = Some (true, st) /\ srun 30 w44 = Some (true, tr st)) /\
+  (exists st, mrun 20 wnever = Some (true, st) /\ srun 20 wnever = Some (true, tr st)).
+Proof.
+  repeat split; eexists; (split; [first [exact w11_now|exact w43_now|exact w44_now|exact wnever_now]|]);
+    simpl; first [exact (proj2 w11_run)|exact (proj2 w43_run)|exact (proj2 w44_run)|exact (proj2 wnever_run)].
+Qed.
